@@ -4,6 +4,8 @@ convex ones, and agreement of subdiff_distance with the oracle's (definition-der
 Facts are judged by TLC (specs/trace/RelTrace.tla); numbers come from the oracle mirror.
 """
 import itertools
+import json
+
 import numpy as np
 
 from ..oracle import penalties as OP
@@ -262,7 +264,148 @@ def run_group(desc, tid0):
             for gi in range(len(grs)):
                 f.approx("dist_eq", d[gi], ref[gi], 1e-9, 1e-9)
             traces.append(f.trace())
+    # the value function itself (whose subdifferential / prox is taken): documented formula, any group layout
+    p = len(desc["grp_indices"])
+    for k in range(12):
+        w = rng.standard_normal(p) * (rng.random(p) < 0.7)
+        if desc.get("positive"):
+            w = np.abs(w)
+        tid += 1
+        f = rel.Facts(tid, dict(kind=desc["kind"], positive=desc.get("positive"), op="subdiff_value", w=w.tolist()))
+        try:
+            val = float(pen.value(w))
+        except Exception as e:  # noqa: BLE001
+            val = float("nan")
+            f.meta["exc"] = type(e).__name__
+        f.approx("value_eq", val, float(OP.value(desc, w)), 1e-12, 1e-10)
+        traces.append(f.trace())
     return traces
+
+
+
+# ------------------------------------------------------------------ C08: the solvers' fixed-point residual functions
+def fixpoint_jobs():
+    out = []
+    wts = [1.0, 0.0, 2.0, 0.5, 1.5, 0.25, 3.0]
+    for pos in (False, True):
+        out.append({"kind": "L1", "alpha": 0.5, "positive": pos})
+        out.append({"kind": "WeightedL1", "alpha": 0.5, "weights": wts, "positive": pos})
+        out.append({"kind": "MCPenalty", "alpha": 0.5, "gamma": 3.0, "positive": pos})
+        out.append({"kind": "WeightedMCPenalty", "alpha": 0.5, "gamma": 3.0, "weights": wts, "positive": pos})
+    out.append({"kind": "L1_plus_L2", "alpha": 0.5, "l1_ratio": 0.4, "positive": False})
+    out.append({"kind": "SCAD", "alpha": 0.5, "gamma": 3.0})
+    out.append({"kind": "IndicatorBox", "alpha": 1.0})
+    ptr, pidx = [0, 2, 5, 7], [4, 0, 2, 5, 1, 6, 3]
+    out.append({"kind": "WeightedGroupL2", "alpha": 0.5, "weights": [1.0, 0.0, 2.0], "grp_ptr": ptr, "grp_indices": pidx,
+                "positive": False})
+    out.append({"kind": "WeightedL1GroupL2", "alpha": 0.5, "weights_groups": [1.0, 0.5, 0.25],
+                "weights_features": [0.3, 1.1, 0.05, 0.7, 1.9, 0.45, 0.0], "grp_ptr": ptr, "grp_indices": pidx})
+    out.append({"kind": "L2_1", "alpha": 0.5})
+    out.append({"kind": "BlockMCPenalty", "alpha": 0.5, "gamma": 3.0})
+    out.append({"kind": "BlockSCAD", "alpha": 0.5, "gamma": 3.0})
+    return out
+
+
+def run_fixpoint_fn(desc, tid0):
+    """worker: dist_fix_point_cd / dist_fix_point_bcd (solvers.common, solvers.multitask_bcd) on working sets that are
+    NOT arange, against the definition |w_b - prox_{pen_b / L_b}(w_b - grad_b / L_b)| (a null block: step NULL_STEP)."""
+    from .. import skl
+    from ..oracle import problem as PB
+    from skglm.solvers.common import dist_fix_point_cd, dist_fix_point_bcd
+    from skglm.solvers.multitask_bcd import dist_fix_point_bcd as dist_fix_point_mt
+    pen = skl.penalty(desc)
+    df = skl.datafit({"kind": "Quadratic"})
+    rng = np.random.default_rng([29, sum(map(ord, json.dumps(desc, sort_keys=True)))])
+    traces = []
+    tid = tid0
+    p = 7
+    k = desc["kind"]
+    for rep in range(14):
+        tid += 1
+        L = rng.uniform(0.3, 3.0, p)
+        if rep % 4 == 0:
+            L[rng.integers(p)] = 0.0
+        if k in OP.GROUP_BLOCK:
+            grs = OP.groups(desc)
+            nb = len(grs)
+            Lb = rng.uniform(0.3, 3.0, nb)
+            w = rng.standard_normal(p) * (rng.random(p) < 0.7)
+            if desc.get("positive"):
+                w = np.abs(w)
+            g = rng.standard_normal(p)
+            ws = rng.permutation(nb)[: int(rng.integers(1, nb + 1))].astype(np.int32)
+            f = rel.Facts(tid, dict(kind=k, op="subdiff_fixpoint_fn", positive=desc.get("positive"), ws=ws.tolist(),
+                                    w=w.tolist(), g=g.tolist(), L=Lb.tolist()))
+            gstack = np.concatenate([g[np.asarray(grs[b])] for b in ws])
+            try:
+                d = np.asarray(dist_fix_point_bcd(w, gstack, Lb[ws], df, pen, ws), dtype=float)
+            except Exception as e:  # noqa: BLE001
+                d = np.full(nb, np.nan)
+                f.meta["exc"] = type(e).__name__
+            for pos_, b in enumerate(ws):
+                idx = np.asarray(grs[b])
+                u = OP.prox_block(desc, w[idx] - g[idx] / Lb[b], 1.0 / Lb[b], int(b))
+                f.approx("fixpoint_fn_eq", d[pos_], float(np.linalg.norm(w[idx] - u)), 1e-10, 1e-9)
+        elif k in ("L2_1", "BlockMCPenalty", "BlockSCAD"):
+            T = 3
+            W = rng.standard_normal((p, T)) * (rng.random((p, 1)) < 0.7)
+            G = rng.standard_normal((p, T))
+            G[L == 0] = 0.0
+            ws = rng.permutation(p)[: int(rng.integers(1, p + 1))].astype(np.int64)
+            f = rel.Facts(tid, dict(kind=k, op="subdiff_fixpoint_fn", ws=ws.tolist(), w=W.tolist(), g=G.tolist(),
+                                    L=L.tolist()))
+            try:
+                d = np.asarray(dist_fix_point_mt(W, G[ws], L[ws], df, pen, ws), dtype=float)
+            except Exception as e:  # noqa: BLE001
+                d = np.full(len(ws), np.nan)
+                f.meta["exc"] = type(e).__name__
+            if k == "L2_1":
+                for pos_, j in enumerate(ws):
+                    sj = 1.0 / L[j] if L[j] != 0 else PB.NULL_STEP
+                    u = OP.prox_block(desc, W[j] - G[j] * sj, sj, int(j))
+                    f.approx("fixpoint_fn_eq", d[pos_], float(np.linalg.norm(W[j] - u)), 1e-10, 1e-9)
+            else:
+                # non-convex block penalties: the residual must use the row's OWN data (position-independence)
+                full = np.asarray(dist_fix_point_mt(W, G, L, df, pen, np.arange(p)), dtype=float)
+                for pos_, j in enumerate(ws):
+                    f.approx("fixpoint_fn_eq", d[pos_], float(full[j]), 1e-12, 1e-12)
+        else:
+            w = rng.standard_normal(p) * (rng.random(p) < 0.7)
+            if desc.get("positive") or k == "IndicatorBox":
+                w = np.abs(w)
+            if k == "IndicatorBox":
+                w = np.minimum(w, desc["alpha"])
+            g = rng.standard_normal(p)
+            g[L == 0] = 0.0                          # a null column has a zero gradient
+            ws = rng.permutation(p)[: int(rng.integers(1, p + 1))].astype(np.int64)
+            f = rel.Facts(tid, dict(kind=k, op="subdiff_fixpoint_fn", positive=desc.get("positive"), ws=ws.tolist(),
+                                    w=w.tolist(), g=g.tolist(), L=L.tolist()))
+            try:
+                d = np.asarray(dist_fix_point_cd(w, g[ws], L[ws], df, pen, ws), dtype=float)
+            except Exception as e:  # noqa: BLE001
+                d = np.full(len(ws), np.nan)
+                f.meta["exc"] = type(e).__name__
+            sd = OP.subdiff_dist(desc, w, g)
+            for pos_, j in enumerate(ws):
+                sj = 1.0 / L[j] if L[j] != 0 else PB.NULL_STEP
+                us, _ = OP.prox_scalar(desc, float(w[j] - sj * g[j]), sj, int(j))
+                ref = min(abs(w[j] - u) for u in us)
+                amb = len(us) > 1                                  # a tie of the prox: either value is right
+                # (for the non-convex penalties the prox with the null-column step is outside its well-posed range)
+                f.approx("fixpoint_fn_eq", d[pos_], ref, 1e-10, 1e-9,
+                         when=not amb and not (L[j] == 0 and k in NONCONVEX_SCALAR))
+                # C08: a fixed point of the prox-gradient map has score zero (any penalty), and conversely (convex)
+                if k not in NONCONVEX_SCALAR:
+                    f.flag("fixpoint_fn_zero_iff", (d[pos_] <= 1e-12) == (sd[j] <= 1e-12),
+                           when=bool(np.isfinite(sd[j])) and L[j] != 0)
+                else:
+                    f.flag("fixpoint_fn_zero_iff", sd[j] <= 1e-9, when=bool(d[pos_] <= 1e-14 and np.isfinite(sd[j])
+                                                                           and L[j] != 0))
+        traces.append(f.trace())
+    return traces
+
+
+NONCONVEX_SCALAR = ("MCPenalty", "WeightedMCPenalty", "SCAD")
 
 
 def slope_prox_ref(x, lam):
@@ -339,6 +482,10 @@ def all_jobs():
         jobs.append(("run_group", d, base))
         base += 1000
     jobs.append(("run_slope", {"kind": "SLOPE"}, base))
+    base += 1000
+    for d in fixpoint_jobs():
+        jobs.append(("run_fixpoint_fn", d, base))
+        base += 1000
     return jobs
 
 
